@@ -494,172 +494,20 @@ def _guard_var_from_own_scope(fnode, guard) -> bool:
 @rule(
     "QMETA-FLOW",
     ["C11", "C01", "C06"],
-    "quadrature_degree / quadrature_rule of the integral metadata flow (with parameter binding checked at "
-    "each call) through _group_integrands_by_quadrature_rule, create_quadrature_points_and_weights and "
-    "create_quadrature into basix.make_quadrature; the estimated degree is used only when no non-negative "
-    "degree was requested; the vertex scheme uses the cell vertices with equal weights volume/n; custom "
-    "rules come from the element; integrands are grouped by the rule computed for their own integral",
-    min_instances=8,
+    "two quadrature rules are equal only if points and weights are. (Degree / scheme selection per integral: QMETA-INTERP; grouping: "
+    "QRULE-GROUP; summation per rule and what each integral group receives: GEN-INTEGRAL-IR; the call of create_quadrature for the "
+    "requested degree, scheme and elements: the quadrature matrix of OPT-GATE; polyset family: QUAD-FAMILY.)",
+    min_instances=1,
 )
 def qmeta_flow(repo, res):
-    an = repo.mod("ffcx.analysis")
-    f = an.func("_analyze_form")
-    res.functions.add(f.key)
-    s = ast.unparse(f.node)
-    key = f"{f.key}:degree-selection"
-    res.ob(key)
-    # the update site names the variables that carry the selected degree / scheme
-    up = _find(s, r"metadata\.update\(\{'quadrature_degree': (?P<a>\w+), 'quadrature_rule': (?P<b>\w+)\}\)", "metadata update")
-    qd = up.group("a")
-    loop = None
-    for n in ast.walk(f.node):
-        if isinstance(n, ast.For) and ast.unparse(n.iter) in ("enumerate(integral_data.integrals)", "integral_data.integrals"):
-            loop = n
-    if loop is None:
-        raise AnalysisError("_analyze_form: loop over the integrals of one integral data not found")
-    upd = [c for c in calls_in(loop) if (call_name(c) or "").endswith("metadata.update") and "'quadrature_degree'" in ast.unparse(c)][0]
-    cfg = CFG(f.node)
-    from ..cfg import loop_carried
-
-    for var, what in ((qd, "degree"), (up.group("b"), "scheme")):
-        chains = loop_carried(cfg, loop, upd, var, set(f.params))
-        if chains:
-            ch = " <- ".join(f"{v}@{ln}" for v, ln in chains[0])
-            res.fail(key, f"the {what} written into integral i's metadata may be the value chosen for an earlier integral of the group ({ch}): "
-                     "x0*x1*dx(degree=2) + x0**6*dx would integrate the second term with the degree-2 rule", an.line(upd))
-    defs = [n for n in ast.walk(loop) if isinstance(n, ast.Assign) and any(isinstance(t, ast.Name) and t.id == qd for t in n.targets)]
-    reads_md = [d for d in defs if "'quadrature_degree'" in ast.unparse(d.value) and re.search(r"\bmetadata\b|\.metadata\(\)", ast.unparse(d.value))]
-    if not reads_md:
-        res.fail(key, "the requested degree is not read from the integral's metadata['quadrature_degree']", an.line(loop))
-    est = [d for d in defs if "estimated_polynomial_degree" in ast.unparse(d.value)]
-    if not est:
-        res.fail(key, "no fallback to the estimated polynomial degree", an.line(loop))
-    for d in est:
-        t = ast.unparse(d.value)
-        if "max" not in t:
-            res.fail(key, f"fallback degree is `{t}`, not the (maximum) estimated polynomial degree", an.line(d))
-        guard = _enclosing_if(loop, d)
-        if guard is None or qd not in {x.id for x in ast.walk(guard.test) if isinstance(x, ast.Name)}:
-            res.fail(key, "the estimated degree overwrites the requested one unconditionally", an.line(d))
-            continue
-        from .perm import _beval
-        import copy as _copy
-
-        # sub-expressions that compute the estimated degree are an arbitrary non-negative integer
-        test = _copy.deepcopy(guard.test)
-
-        class _Abs(ast.NodeTransformer):
-            def generic_visit(self, n):
-                if isinstance(n, (ast.Call, ast.Subscript, ast.Attribute)) and "estimated_polynomial_degree" in ast.unparse(n):
-                    return ast.Name(id="__est", ctx=ast.Load())
-                return super().generic_visit(n)
-
-        test = _Abs().visit(test)
-        names = {x.id for x in ast.walk(test) if isinstance(x, ast.Name)} - {qd}
-        in_body = any(x is d for b in guard.body for x in ast.walk(b))
-        wrong = None
-        for est_v in (0, 3, 7):
-            for v in (-3, -1, 0, 1, 4, 9):
-                env = {nm: est_v for nm in names}
-                if names - {"__est"}:
-                    # other names: values estimated earlier in the same iteration are treated alike only if they are
-                    # assigned from the estimated degree; anything else is not understood
-                    for nm in names - {"__est"}:
-                        srcs = [a for a in ast.walk(loop) if isinstance(a, ast.Assign) and any(isinstance(t, ast.Name) and t.id == nm for t in a.targets)]
-                        if not srcs or not all("estimated_polynomial_degree" in ast.unparse(a.value) for a in srcs):
-                            raise AnalysisError(f"_analyze_form: guard of the estimated-degree fallback `{ast.unparse(guard.test)}` uses `{nm}`, which is not understood")
-                env[qd] = v
-                try:
-                    got = bool(_beval(test, env))
-                except AnalysisError as ex:
-                    raise AnalysisError(f"_analyze_form: guard of the estimated-degree fallback `{ast.unparse(guard.test)}` not evaluable: {ex}")
-                if (got if in_body else not got) != (v < 0):
-                    wrong = v
-                    break
-            if wrong is not None:
-                break
-        if wrong is not None:
-            res.fail(key, f"the estimated degree replaces the requested one under `{ast.unparse(guard.test)}` (e.g. requested degree {wrong}); it may only "
-                     "do so when no non-negative degree was requested (a requested quadrature_degree must be honoured even if lower than the estimate)", an.line(guard))
-    # degree 0 is a legitimate request: the value read from the metadata must not pass through a truthiness test
-    for n in ast.walk(loop):
-        if isinstance(n, ast.BoolOp) and isinstance(n.op, ast.Or) and any("'quadrature_degree'" in ast.unparse(v) for v in n.values[:-1]):
-            res.fail(key, f"`{ast.unparse(n)}` replaces a requested quadrature degree of 0 (falsy) by the default: dx(degree=0) would be integrated "
-                     "with the estimated degree instead of the one-point rule", an.line(n))
-        if isinstance(n, (ast.If, ast.IfExp, ast.While)):
-            t = n.test
-            bare = [t] + ([t.operand] if isinstance(t, ast.UnaryOp) and isinstance(t.op, ast.Not) else []) + (list(t.values) if isinstance(t, ast.BoolOp) else [])
-            for b_ in bare:
-                if (isinstance(b_, ast.Name) and b_.id == qd) or (not isinstance(b_, (ast.Compare, ast.BoolOp, ast.UnaryOp)) and "'quadrature_degree'" in ast.unparse(b_)
-                                                                   and isinstance(b_, (ast.Subscript, ast.Call)) and ".get(" in ast.unparse(b_) + ".get(" and not ast.unparse(b_).startswith("isinstance")):
-                    if isinstance(b_, ast.Call) and not ast.unparse(b_.func).endswith(".get"):
-                        continue
-                    res.fail(key, f"`{ast.unparse(t)}` tests the truthiness of the requested degree: degree 0 would be treated as absent", an.line(n))
-    # a literal default must be negative, so that `absent` selects the estimate
-    for d in defs:
-        if isinstance(d.value, (ast.Constant, ast.UnaryOp)):
-            try:
-                c = const_value(d.value)
-            except ValueError:
-                continue
-            if isinstance(c, (int, float)) and c >= 0:
-                res.fail(key, f"default degree {c} is non-negative: integrals without quadrature_degree would not use their estimated degree", an.line(d))
-    mmqd = qd
-    key = f"{f.key}:scheme-selection"
-    res.ob(key)
-    sc = _find(s, r"(?P<qr>\w+) = integral\.metadata\(\)\.get\('quadrature_rule', (?P<dflt>'\w+')\)", "scheme selection")
-    if sc.group("dflt") != "'default'":
-        res.fail(key, f"default scheme is {sc.group('dflt')}", an.line(f.node))
-    key = f"{f.key}:metadata-update"
-    res.ob(key)
-    if up.group("a") != mmqd or up.group("b") != sc.group("qr"):
-        res.fail(key, "the selected degree / scheme are not the ones written back into the integral metadata", an.line(f.node))
-    if "integral_data.integrals[i] = integral.reconstruct(metadata=metadata)" not in s:
-        res.fail(key, "the integral is not reconstructed with the updated metadata", an.line(f.node))
-    key = f"{f.key}:custom"
-    res.ob(key)
-    if not re.search(r"metadata\.update\(\{'quadrature_points': custom_q\[0\], 'quadrature_weights': custom_q\[1\], 'quadrature_rule': 'custom'\}\)", s):
-        res.fail(key, "quadrature elements do not hand their own points and weights on as the custom rule", an.line(f.node))
-    rep = repo.mod("ffcx.ir.representation")
-    g = rep.func("_group_integrands_by_quadrature_rule")
-    res.functions.add(g.key)
-    # how the grouping function reads the metadata, calls create_quadrature_points_and_weights, builds custom and vertex rules and
-    # files the integrands is decided by QRULE-GROUP (the function interpreted on samples); the polyset family and the arguments
-    # of basix.make_quadrature by QUAD-FAMILY
     ru = repo.mod("ffcx.ir.representationutils")
-    cq = ru.func("create_quadrature_points_and_weights")
-    res.functions.add(cq.key)
-    # inside: create_quadrature(cellname, degree, rule, elements)
-    eli = repo.mod("ffcx.element_interface")
-    cr = eli.func("create_quadrature")
-    res.functions.add(cr.key)
-    n = 0
-    for c in calls_in(cq.node):
-        if (call_name(c) or "") == "create_quadrature":
-            n += 1
-            key = f"{cq.key}:binding:create_quadrature:{n}"
-            res.ob(key)
-            b = {cr.params[i]: ast.unparse(a) for i, a in enumerate(c.args)}
-            b.update({k.arg: ast.unparse(k.value) for k in c.keywords})
-            if b.get("degree") != "degree" or b.get("rule") != "rule" or b.get("elements") != "elements":
-                res.fail(key, f"create_quadrature is called with degree={b.get('degree')}, rule={b.get('rule')}", ru.line(c))
-    if n < 5:
-        raise AnalysisError("fewer than 5 create_quadrature calls found")
-    # QuadratureRule identity: equality on points and weights
     qr = ru.func("QuadratureRule.__eq__")
+    res.functions.add(qr.key)
     key = f"{qr.key}:points-and-weights"
     res.ob(key)
     cmp_fields = {n.attr for n in ast.walk(qr.node) if isinstance(n, ast.Attribute) and isinstance(n.value, ast.Name) and n.value.id == "self"}
     if not {"points", "weights"} <= cmp_fields:
         res.fail(key, "two quadrature rules compare equal without comparing both points and weights: different rules are merged", ru.line(qr.node))
-    # sum of integrands per rule
-    ci = rep.func("_compute_integral_ir")
-    key = f"{ci.key}:sum-per-rule"
-    res.ob(key)
-    s = ast.unparse(ci.node)
-    if not re.search(r"for (\w+), (\w+) in (\w+)\.items\(\):\n\s+(\w+) = sorted_expr_sum\(\2\)", s):
-        res.fail(key, "integrands of one rule are not summed (sorted_expr_sum) per rule", rep.line(ci.node))
-
 
 
 def _quadrature_matrix(repo, res, ru, cq):
@@ -1091,3 +939,54 @@ def expr_layout(repo, res):
     res.ob(key)
     if "base_ir['shape'] = list(expr.ufl_shape)" not in s or "base_ir['tensor_shape'] = tensor_shape" not in s:
         res.fail(key, "value shape / argument shape of the expression are not recorded from the expression itself", rep.line(g.node))
+
+
+@rule(
+    "TOL-FORWARD",
+    ["C10"],
+    "inside every function of ir/elementtables.py that takes (rtol, atol), each call of a repository function that itself takes "
+    "(rtol, atol) passes the caller's own tolerances (resolved through the callee's signature and local definitions), so that the "
+    "configured table_rtol / table_atol govern clamping, classification (zeros / ones / piecewise / uniform / permuted) and "
+    "table sharing alike - a comparison made with the built-in defaults changes results by more than the configured tolerances allow",
+    min_instances=8,
+)
+def tol_forward(repo, res):
+    et = repo.mod("ffcx.ir.elementtables")
+    takers = {q: f for q, f in et.funcs.items() if "." not in q and {"rtol", "atol"} <= set(f.params)}
+    for q, f in takers.items():
+        res.functions.add(f.key)
+        sl = Slicer(f.node)
+        for c in calls_in(f.node):
+            nm = (call_name(c) or "")
+            callee = takers.get(nm)
+            if callee is None and nm in ("np.allclose", "np.isclose", "numpy.allclose", "numpy.isclose"):
+                class _NP:  # numpy's signature: (a, b, rtol=1e-05, atol=1e-08, equal_nan=False)
+                    params = ["a", "b", "rtol", "atol", "equal_nan"]
+                callee = _NP
+            if callee is None:
+                continue
+            ps = list(callee.params)
+            b_ = {ps[i]: a for i, a in enumerate(c.args) if i < len(ps)}
+            b_.update({k.arg: k.value for k in c.keywords if k.arg})
+            for par in ("rtol", "atol"):
+                key = f"{f.key}:{nm}:{par}:{_call_ordinal(f.node, c, nm)}"
+                res.ob(key)
+                a_ = b_.get(par)
+                if a_ is None:
+                    res.fail(key, f"{q} calls {nm}(...) without {par}: the comparison uses the built-in default ({par} = default_{par}) instead of the tolerance "
+                             f"{q} was called with, so table_{par} does not govern this decision (e.g. a table is classified `zeros` under the default although "
+                             "its entries exceed the configured tolerance)", et.line(c))
+                    continue
+                roots = sl.param_roots(a_)
+                if par not in roots:
+                    res.fail(key, f"{q} calls {nm}(... {par}={ast.unparse(a_)} ...): not the caller's own {par}", et.line(c))
+
+
+def _call_ordinal(fnode, call, name):
+    k = 0
+    for c in calls_in(fnode):
+        if (call_name(c) or "") == name:
+            if c is call:
+                return k
+            k += 1
+    return k
